@@ -34,6 +34,10 @@ def run_real(c):
                 root = os.path.join(base_dir, "cur rent")
                 os.symlink(os.path.basename(real) if "/" not in c["rootname"] else real, root)
         yamlfs.materialise(c["tree"], root)
+        if c.get("sibling_text") is not None:
+            # a file called like the root directory, next to it (above the tree root: no name may reach it)
+            with open(root.rstrip("/") + ".yaml", "w", encoding="utf-8") as f:
+                f.write(c["sibling_text"])
         if c.get("faults"):
             with yamlfs.Faults(root, c["faults"]):
                 return _get_once(c, root)
@@ -374,6 +378,24 @@ class C11(Check):
                 yield {"tree": tree, "engine": False, "ml": ml, "ms": True, "allow_empty": False, "sys": "s1", "pd": {}, "pv": ""}
         for i, tree in enumerate(limit_family()):
             yield {"tree": tree, "engine": bool(i % 2), "ml": False, "ms": True, "allow_empty": False, "sys": "s1", "pd": {}, "pv": ""}
+        # names that are white space only or carry leading / trailing white space (quoted or templated), in top lists and
+        # include lists, with an init.yaml in the tree root and a file called like the root directory next to it: such a
+        # name is a (most likely missing) file of exactly that name - never the empty name, never the root's init.yaml
+        ws_names = ["' '", "'  '", "\"\\t\"", "' a'", "'a '", "' a '", "'. '", "' .a'", "'.a '", "'a. '", "'a .b'", "\"\\u00a0\"", "\"a\\n\""]
+        base_ws = {"init.yaml": "rootinit: 1\n", "a.yaml": "k: 1\n", "a /init.yaml": "k: padded\n", " a.yaml": "k: lead\n", "b.yaml": "m: 1\n"}
+        for nm in ws_names:
+            trees = [dict(base_ws, **{"top.yaml": "'*': [c]\n", "c.yaml": "q: 1\ninclude: [%s]\n" % nm}),
+                     dict(base_ws, **{"top.yaml": "'*': [d.e]\n", "d/e.yaml": "q: 1\ninclude: [%s]\n" % nm, "d/init.yaml": "dinit: 1\n"})]
+            if not nm.startswith("'."):          # in a top list a leading dot gives an empty segment (outside the model)
+                trees += [dict(base_ws, **{"top.yaml": "'*': [%s]\n" % nm}), dict(base_ws, **{"top.yaml": "'*': [b, %s]\n" % nm})]
+            for tree in trees:
+                yield {"tree": tree, "engine": False, "ml": False, "ms": True, "allow_empty": False, "sys": "s1", "pd": {}, "pv": "",
+                       "rootname": "treeroot", "sibling_text": "above: 1\n"}
+        for pd, pv in (({}, ""), ({"role": "b"}, "v1"), ({"role": " "}, "v2")):
+            for tree in (dict(base_ws, **{"top.yaml": "'*': [\"{{ data.get('role', '') }} \"]\n"}),
+                         dict(base_ws, **{"top.yaml": "'*': [c]\n", "c.yaml": "include: [\" {{ data.get('role', '') }}\"]\n"})):
+                yield {"tree": tree, "engine": True, "ml": False, "ms": True, "allow_empty": False, "sys": "s1", "pd": pd, "pv": pv,
+                       "rootname": "treeroot", "sibling_text": "above: 1\n"}
         # text that a template engine would treat as markup, with templating switched off (template: None) and on; the
         # source is created through the factory and directly
         markup = [{"top.yaml": "'*': [a, b]\n# {% if id == 's1' %}\n's1': [c]\n# {% endif %}\n", "a.yaml": "k: '{{ later }}'\nm: \"{# note #}x\"\n",
